@@ -33,4 +33,13 @@ def jobs():
     js.append(Job("S4-evict-oldest-idle", "C12/c12.c", "c12_s4_evict", UNITS, extra_src=EXTRA, defines=CUT, remove_bodies=RB, unwind=40, flags=FS, est_gb=4, timeout=1500,
                   desc="datagram from a new peer with 3 server sessions in the real uthash table: oldest idle one reclaimed at max_idle_sessions",
                   bounds={"sessions": 3, "max_idle_sessions": "0..4"}))
+    # B1: context teardown with the real session release/free chain; memory-leak + deallocated-object obligations
+    cutb = [c for c in CUT if c != "UNREACH_SESSION_FREE"]
+    rbb = [r for r in RB if r not in ("coap_session_free", "coap_proxy_remove_association")]
+    for a, q, h in ((1, 1, 1), (1, 0, 0), (0, 1, 1), (0, 0, 0)):
+        js.append(Job("B1-teardown@async%d-queued%d-held%d" % (a, q, h), "C12/c12b.c", "c12_b1_teardown", UNITS, extra_src=EXTRA,
+                      defines=cutb + ["WITH_ASYNC=%d" % a, "WITH_QUEUED=%d" % q, "WITH_HELD=%d" % h], remove_bodies=rbb, unwind=40,
+                      flags=FS + ["--memory-leak-check"], group="B1-teardown", est_gb=4, timeout=1500,
+                      desc="coap_free_context_lkd with one client session (async entry %d, queued CON %d, held CON %d): all released, once" % (a, q, h),
+                      bounds={"sessions": 1, "async": a, "queued": q, "held": h}))
     return js
